@@ -2,6 +2,7 @@
 from __future__ import annotations
 import copy
 from .common import *
+import math
 
 RL = 'network/rate_limiter.py'
 
@@ -81,6 +82,19 @@ def run(eng: Engine, ck: Check):
     ok = len(rets_e) == 1 and unparse(rets_e[0].value) == 'self.bucket < self.MIN_BUCKET_SIZE' and rets and unparse(rets[0].value) == 'self.MIN_BUCKET_SIZE'
     ck.ob('R-C20-CAP', ie, ie.node, 'non-empty means at least one chunk (MIN_BUCKET_SIZE) is available, and one chunk is what is handed out (bucket never negative)', ok, '',
           construct='is_empty threshold == chunk')
+    # liveness of the smallest limit, from the constants alone.  refill() adds int((limit - bucket) * dt) and resets the clock on every
+    # poll; take_tokens polls every INTERVAL seconds, so dt >= INTERVAL and an increment of at least one token is guaranteed only while
+    # (limit - bucket) * INTERVAL >= 1.  The bucket is therefore only guaranteed to climb back to limit - 1/INTERVAL; a grant needs
+    # bucket >= MIN_BUCKET_SIZE.  With the smallest configurable limit (1 KiB/s = 1024 tokens/s):  MIN_BUCKET_SIZE <= 1024 - 1/INTERVAL.
+    interval = cval(repo, tk, ast.Name('INTERVAL', ast.Load())) if False else const(const_value(repo, repo.module(RL), 'INTERVAL'))
+    sleeps = [x for x in calls_in(tk.node) if call_name(x) == 'sleep' and x.args]
+    polls_interval = len(sleeps) == 1 and unparse(sleeps[0].args[0]) == 'INTERVAL'
+    unit = 1024       # checked above: limit_bps = limit_kbps * 1024
+    ok = isinstance(mb, int) and isinstance(interval, (int, float)) and interval > 0 and polls_interval and mb <= unit - math.ceil(1 / interval)
+    ck.ob('R-C20-LIVE', lim, lim.node, 'the smallest positive limit (1 KiB/s) is granted tokens in bounded time: MIN_BUCKET_SIZE <= 1024 - 1/INTERVAL '
+          '(the truncating refill stops adding once fewer than 1/INTERVAL tokens are missing)', ok,
+          f'MIN_BUCKET_SIZE={mb}, INTERVAL={interval}: the bucket of a 1 KiB/s limiter is only guaranteed to reach {unit - math.ceil(1 / interval) if interval else "?"} '
+          'tokens, fewer than one chunk: after the first grant take_tokens() polls forever and the transfer hangs', construct='smallest limit live')
     # refill: adds (limit - bucket) * dt through add_tokens, advances last_refill on every path that added
     adds = calls_on(rf.node, 'add_tokens')
     ok = len(adds) == 1
